@@ -7,7 +7,7 @@ from harness.core import Z, S, L, O, T, B, Qc
 MODEL_MODS = ["Model.Pitch", "Model.Rel", "Model.Render"]
 RULE = ("structured scores: 1..5 chords x 1..3 named parts with independent lengths (+ a drum part in 25%), parts absent from "
         "random chords, notes weighted to pitched kinds with rests/continuations anywhere (also at chord heads and tails), relative "
-        "notes, accidentals, per-note modes; durations on a mixed grid (quarters, triplets, dotted); tempi 30..240 incl. 60 and 120. "
+        "notes, accidentals, per-note modes; durations on a mixed grid (quarters, triplets, dotted); tempi 30..240 incl. 60 and 120, one case in four with a tempo that is not a whole number (72.5, 133.3, 59.94, 100/3 ... given as float or Fraction). "
         "non-trivial = at least 2 chords, or an absent part, or a continuation; distinct = distinct canonical JSON")
 TRUSTED = ["float(seconds) is compared after recovering the exact rational (limit_denominator(10^6)); Python's sorted is stable"]
 ASSUMPTIONS = ["tag-free notes (ornaments are C16), no tempo-change notes, integer amplitudes, pattern 'x' placeholders excluded"]
@@ -146,12 +146,20 @@ class ToEvents(Stream):
                         for x in notes:
                             if x["kind"] not in "rl" and rng.random() < 0.3:
                                 x["amp"] = 0
-            yield {"score": sc, "tempo": rng.choice([60, 120, 120, 90, 30, 240, 72, 100])}
+            tempo = rng.choice([60, 120, 120, 90, 30, 240, 72, 100])
+            how = "int"
+            if i % 5 != 2 and i % 3 == 0:
+                # "any constant tempo": tempi that are not whole numbers of beats per minute, given as a float or as a Fraction
+                # (kept off the septuplet cases so that every time in seconds has a denominator the float comparison recovers)
+                tempo = rng.choice([F(145, 2), F(1333, 10), F(2997, 50), F(201, 2), F(363, 4), F(100, 3)])
+                how = rng.choice(["float", "frac"]) if tempo.denominator in (2, 4) else ("frac" if tempo.denominator == 3 else "float")
+            yield {"score": sc, "tempo": tempo, "tempo_as": how}
 
     def impl(self, case):
         def f():
             sc = sg.mk_rscore(case["score"])
-            evs = sc.to_events(tempo=case["tempo"])
+            tempo = {"int": int, "float": float, "frac": F}[case.get("tempo_as", "int")](case["tempo"])
+            evs = sc.to_events(tempo=tempo)
             return [[int(e["pitch"]), exact(e["offset"]), exact(e["duration"]), int(e["velocity"]), e["instrument"]] for e in evs]
         return mlang.guarded(f)
 
@@ -164,13 +172,13 @@ class ToEvents(Stream):
             # the event does not carry its track index: the model's events are compared on pitch/offset/duration/velocity
             # and on the instrument name of their track (the harness maps the index back)
             exp = "(Some " + L([f"(mkEv {Z(e[0])} {Qc(e[1])} {Qc(e[2])} {Z(e[3])} 0%nat false)" for e in r]) + ")"
-        return T(B(CONT_SCALED), sg.coq_rscore(case["score"], tpq), Z(tpq), Z(case["tempo"]), exp)
+        return T(B(CONT_SCALED), sg.coq_rscore(case["score"], tpq), Z(tpq), Qc(F(case["tempo"])), exp)
 
     def spec(self, case, r):
         if mlang.is_exc(r):
             return {"sig": "to_events-raises", "msg": str(r)}
         want = sg.spec_sounding(case["score"])
-        k = F(60, case["tempo"])
+        k = F(60) / F(case["tempo"])
         exp = []
         for nm, evs in want.items():
             exp += [[p, o * k, d * k, int(v), nm.split("__")[0]] for p, o, d, v in evs]
@@ -189,7 +197,7 @@ class ToEvents(Stream):
         return case["tempo"] != 60
 
     def hist_keys(self, case, r):
-        return [f"tempo={case['tempo']}"] + features(case["score"])
+        return [f"tempo={case['tempo']}", f"tempo-given-as={case.get('tempo_as', 'int')}"] + features(case["score"])
 
     def shrink(self, case):
         for s in sg.shrink_score(case["score"]):
